@@ -84,7 +84,14 @@ func runObligations(obls []*Obligation, o RunOpts) {
 				if o.DumpDir != "" {
 					dumpQuery(o.DumpDir, ob.Name, q)
 				}
-				r := Solve(q, so)
+				var r SolveResult
+				piecewiseFirst := !ob.WantSat && strings.Contains(ob.Goal, "(forall ") && (strings.HasPrefix(ob.Goal, "(and ") || len(ob.Cases) > 1)
+				if piecewiseFirst {
+					// quantified conjunctions / joins are discharged piece by piece right away
+					r = SolveResult{Status: "unknown", Solver: "piecewise"}
+				} else {
+					r = Solve(q, so)
+				}
 				if !ob.WantSat && r.Status != "unsat" && r.Status != "sat" && (strings.HasPrefix(ob.Goal, "(and ") || len(ob.Cases) > 1) {
 					// not decided as a whole: discharge it conjunct by conjunct and, where the state is a join of several
 					// paths, path by path (the path conditions are exhaustive under the obligation's pc)
@@ -114,6 +121,14 @@ func runObligations(obls []*Obligation, o RunOpts) {
 								r = rc
 								r.Raw = "conjunct not discharged: " + clipStr(cj, 400) + "\n" + rc.Raw
 								break
+							}
+						}
+						if !all && piecewiseFirst {
+							// give the undivided query one chance too
+							rw := Solve(q, so)
+							tot += rw.Ms
+							if rw.Status == "unsat" || rw.Status == "sat" {
+								r = rw
 							}
 						}
 						if all {
